@@ -75,7 +75,45 @@ def short_path(k):
     return last2(k)
 
 
+class FnView:
+    """a function seen through the inliner: same identity (key, info, names), different tree"""
+    def __init__(self, f, hir, n_inlined):
+        self._f = f
+        self._hir = hir
+        self.n_inlined = n_inlined
+        self.cache_key = f.key + "#view"
+
+    def __getattr__(self, a):
+        return getattr(self._f, a)
+
+    @property
+    def hir(self):
+        return self._hir
+
+    def short(self):
+        return self._f.short()
+
+    def __repr__(self):
+        return "FnView(%s)" % self._f.key
+
+
 class DB:
+    def view(self, f, depth=2, keep=()):
+        """f with its private same-file helpers expanded in place (see inliner.py); f itself when there is nothing to expand.
+        `keep`: name suffixes of helpers that stay calls (the rule is anchored on them by name)"""
+        if isinstance(f, FnView):
+            return f
+        c = self.__dict__.setdefault("_views", {})
+        ck = (f.key, depth, tuple(keep))
+        if ck not in c:
+            from .inliner import inlined
+            hir, n = inlined(self, f, depth, keep)
+            v = FnView(f, hir, n) if n else f
+            if n:
+                v.cache_key = "%s#view%d%s" % (f.key, depth, "|".join(keep))
+            c[ck] = v
+        return c[ck]
+
     def __init__(self, crates, meta=None):
         self.meta = meta or {}
         self.fns = {}
@@ -296,6 +334,16 @@ def deref_let(n, depth=6):
         n = peel(n["let_init"])
         depth -= 1
     return n
+
+
+def deref_all(n, depth=8):
+    """look through casts / refs and immutable lets alternately until neither applies: the value expression a name stands for"""
+    for _ in range(depth):
+        n2 = deref_let(peel_casts(n))
+        if n2 is n:
+            break
+        n = n2
+    return peel_casts(n)
 
 
 def walk_x(n, parents=(), _depth=0):
@@ -589,6 +637,8 @@ def render(n, depth=0, x=False, subst=None, canon=False):
         return "let %s = %s" % (render_pat(n["pat"]), r(n["init"]))
     if k in ("Break", "Continue"):
         return k.lower()
+    if k == "BreakValue":
+        return "helper-return " + (r(n["e"]) if "e" in n else "")
     return k or "?"
 
 
@@ -623,8 +673,11 @@ def diverges(n):
     if not isinstance(n, dict):
         return False
     k = n.get("k")
-    if k in ("Ret", "Break", "Continue"):
+    if k in ("Ret", "Break", "Continue", "BreakValue"):
         return True
+    if k == "Block" and n.get("inl"):
+        # an inlined helper body: leaving it with its value (BreakValue) is not leaving the enclosing function
+        return _diverges_real(n)
     if n.get("ty") == "!":
         return True
     if k == "Block":
@@ -643,6 +696,23 @@ def diverges(n):
     return False
 
 
+def _diverges_real(n):
+    """control never falls out of the bottom of n AND never leaves it through a BreakValue (helper `return`)"""
+    if not isinstance(n, dict):
+        return False
+    if any(x.get("k") == "BreakValue" for x, _ in walk(n)):
+        return False
+    k = n.get("k")
+    if k == "Block":
+        for st in n.get("stmts", []):
+            if st["k"] in ("Expr", "Semi") and diverges(st["e"]):
+                return True
+            if st["k"] == "Let" and "init" in st and "els" not in st and diverges(st["init"]):
+                return True
+        return "expr" in n and diverges(n["expr"])
+    return diverges(n)
+
+
 def exit_kind(n):
     """how a diverging branch leaves: 'err' (return Err / ?-style), 'ok' (return Ok),
     'ret' (other return), 'continue', 'break', 'panic'"""
@@ -655,12 +725,16 @@ def exit_kind(n):
             e = peel(x.get("e")) if "e" in x else None
             if e and e.get("k") == "Call" and path_ends(e.get("callee"), ("Result::Err", "Err")):
                 kinds.append("err")
+            elif e and e.get("k") in ("Call", "MethodCall") and path_ends(e.get("callee") or e.get("resolved") or "", ("DicCompilationCtx::err",)):
+                kinds.append("err")
             elif e and e.get("k") == "Call" and path_ends(e.get("callee"), ("Result::Ok", "Ok")):
                 kinds.append("ok")
             elif e and e.get("k") == "Path" and path_ends(e.get("path"), ("Option::None", "None")):
                 kinds.append("none")
             else:
                 kinds.append("ret")
+        elif k == "BreakValue":
+            kinds.append("helper-ret")
         elif k == "Continue":
             kinds.append("continue")
         elif k == "Break":
@@ -732,19 +806,39 @@ def _pc(n, tid, acc):
                     r = _pc(st["els"], tid, cur)
                     if r is not None:
                         return r
+                if "init" in st:
+                    cur = cur + _survive(st["init"], False)
                 continue
             e = st["e"]
             r = _pc(e, tid, cur)
             if r is not None:
                 return r
             # `if c { diverge }` => !c afterwards ; `if c {..} else { diverge }` => c afterwards
-            if e.get("k") == "If":
-                if diverges(e["then"]) and not ("else" in e and diverges(e["else"])):
-                    cur = cur + [(e["cond"], False)]
-                elif "else" in e and diverges(e["else"]):
-                    cur = cur + [(e["cond"], True)]
+            cur = cur + _survive(e, False)
         if "expr" in n:
             return _pc(n["expr"], tid, cur)
+        return None
+    if k == "Match" and n.get("src") == "ForLoopDesugar":
+        # the body runs only for elements that pass the `.filter(pred)` adaptors of the iterated expression
+        r = _pc(n["scrut"], tid, acc)
+        if r is not None:
+            return r
+        it = n["scrut"]["args"][0] if n["scrut"].get("args") else n["scrut"]
+        extra = _filter_conds(it)
+        for a in n["arms"]:
+            r = _pc(a["body"], tid, acc + extra)
+            if r is not None:
+                return r
+        return None
+    if k == "MethodCall" and n.get("method") in ("for_each", "try_for_each", "fold", "try_fold", "map", "all", "any", "find", "position", "filter_map", "find_map"):
+        r = _pc(n["recv"], tid, acc)
+        if r is not None:
+            return r
+        extra = _filter_conds(n["recv"])
+        for a in n["args"]:
+            r = _pc(a, tid, acc + extra)
+            if r is not None:
+                return r
         return None
     if k == "Match":
         r = _pc(n["scrut"], tid, acc)
@@ -771,6 +865,54 @@ def _pc(n, tid, acc):
         if r is not None:
             return r
     return None
+
+
+def _survive(e, inl, depth=0):
+    """conditions that hold once control has passed expression `e` (a statement, or the initialiser of a let): the negation of
+    every guard in it that leaves the enclosing code.  Inside an inlined helper block (inl=True) only guards that leave the
+    FUNCTION count — a helper `return` (BreakValue) hands control back to the code after the block."""
+    e = peel(e)
+    if not isinstance(e, dict) or depth > 6:
+        return []
+    k = e.get("k")
+    div = _diverges_real if inl else diverges
+    if k == "If":
+        if div(e["then"]) and not ("else" in e and div(e["else"])):
+            return [(e["cond"], False)]
+        if "else" in e and div(e["else"]):
+            return [(e["cond"], True)]
+        return []
+    if k == "Block" and (e.get("inl") or inl or depth == 0 or True):
+        inl2 = inl or bool(e.get("inl"))
+        out = []
+        for st in e.get("stmts", []):
+            if st["k"] == "Let":
+                if "init" in st and "els" not in st:
+                    out += _survive(st["init"], inl2, depth + 1)
+            elif isinstance(st.get("e"), dict):
+                out += _survive(st["e"], inl2, depth + 1)
+        if "expr" in e:
+            out += _survive(e["expr"], inl2, depth + 1)
+        return out
+    if k == "Match" and e.get("src") == "TryDesugar":
+        sc = e["scrut"]
+        return _survive(sc["args"][0], inl, depth + 1) if isinstance(sc, dict) and sc.get("args") else []
+    return []
+
+
+def _filter_conds(it):
+    """[(predicate body, True)] for every `.filter(|x| pred)` in the adaptor chain of iterator expression `it` (through hoisted lets)"""
+    out = []
+    e = deref_let(it)
+    d = 0
+    while isinstance(e, dict) and e.get("k") == "MethodCall" and d < 12:
+        if e.get("method") == "filter" and e.get("args"):
+            clo = peel(e["args"][0])
+            if isinstance(clo, dict) and clo.get("k") == "Closure":
+                out.append((clo["body"], True))
+        e = deref_let(e["recv"])
+        d += 1
+    return out
 
 
 def find_by_id(root, tid):
